@@ -111,6 +111,19 @@ func shardC10(c *Ctx, shard, nshards int) {
 			run(c10Job{fmt.Sprintf("Union3D[%d different operands]", k), nil, sdf.Union3D(ops...)}, false)
 		}
 	}
+	// long-lived memoising wrappers: one Cache2D that has already stored very many distinct points (a cached profile reused
+	// by several fine renders) and is then read back concurrently - old and new points, hits and misses mixed
+	fills := []int{70_000, 300_000, 1_200_000}
+	if c.Pick(0, 1) == 1 {
+		fills = append(fills, 2_300_000, 4_500_000)
+	}
+	for i, fill := range fills {
+		if !mine() {
+			continue
+		}
+		fmt.Printf("SHAPE long-lived Cache2D, %d stored points\n", fill)
+		c10LongCache(c, i, fill)
+	}
 	for _, e := range catalog {
 		for i := 0; i < perEntry; i++ {
 			if !mine() {
@@ -228,5 +241,74 @@ func c10Hammer(c *Ctx, j c10Job, nPts, reps int) {
 	if len(j.desc) < 200 && c.Counter("samples_taken") < 3 {
 		c.Count("samples_taken", 1)
 		c.Sample(map[string]any{"shape": j.desc, "points": nPts, "goroutines": W, "repetitions": reps, "max_in_flight": maxInflight})
+	}
+}
+
+// c10LongCache: fill one Cache2D with `fill` distinct points (concurrently, disjoint ranges), then let every goroutine read
+// back points of every age in its own PRNG order, mixed with fresh points; every value must equal the wrapped shape's.
+func c10LongCache(c *Ctx, idx, fill int) {
+	r := c.Rng("longcache", idx)
+	inner := leaf2(r, r.LogR(0.5, 5))
+	cs := sdf.Cache2D(inner.s2)
+	desc := fmt.Sprintf("Cache2D(%s) after %d stored points", inner.desc, fill)
+	bb := inner.s2.BoundingBox()
+	const row = 2048
+	dx := bb.Size().X * 1.5 / row
+	dy := bb.Size().Y * 1.5 / float64(fill/row+1)
+	x0, y0 := bb.Min.X-0.25*bb.Size().X, bb.Min.Y-0.25*bb.Size().Y
+	pt := func(i int) v2.Vec { return v2.Vec{X: x0 + float64(i%row)*dx, Y: y0 + float64(i/row)*dy} }
+	W := runtime.NumCPU()
+	if W < 4 {
+		W = 4
+	}
+	var bad atomic.Int64
+	var firstBad atomic.Int64
+	firstBad.Store(-1)
+	check := func(i int) {
+		p := pt(i)
+		if got, want := cs.Evaluate(p), inner.s2.Evaluate(p); math.Float64bits(got) != math.Float64bits(want) {
+			bad.Add(1)
+			firstBad.CompareAndSwap(-1, int64(i))
+		}
+	}
+	var wg sync.WaitGroup
+	for w := 0; w < W; w++ {
+		wg.Add(1)
+		go func(w int) {
+			defer wg.Done()
+			for i := w; i < fill; i += W {
+				check(i)
+			}
+		}(w)
+	}
+	wg.Wait()
+	reads := 60_000
+	for w := 0; w < W; w++ {
+		wg.Add(1)
+		rw := c.Rng("longcache-read", idx, w)
+		go func(rw *Rng) {
+			defer wg.Done()
+			for k := 0; k < reads; k++ {
+				switch k % 4 {
+				case 0: // the oldest points
+					check(rw.I(fill/16 + 1))
+				case 1: // any age
+					check(rw.I(fill))
+				case 2: // the newest
+					check(fill - 1 - rw.I(fill/16+1))
+				default: // fresh points: misses that store
+					check(fill + rw.I(fill/8+1))
+				}
+			}
+		}(rw)
+	}
+	wg.Wait()
+	c.Eval(fill + reads*W)
+	c.Distinct(desc)
+	c.MaxObs("long_lived_cache_stored_points", float64(fill))
+	c.Count("long_lived_cache_reads", int64(reads*W))
+	if n := bad.Load(); n > 0 {
+		c.Violate("", fmt.Sprintf("concurrent-value-differs %s: %d cached values differ from the wrapped shape's own value (first at point #%d)", desc, n, firstBad.Load()),
+			map[string]any{"shape": desc, "point_index": firstBad.Load(), "stored_points": fill})
 	}
 }
